@@ -448,7 +448,7 @@ def truth(x) -> SBool:
     if isinstance(x, SEnum):
         return SBool(x.t != 0) if issubclass(x.cls, enum.Flag) or issubclass(x.cls, int) else SBool(True)
     if isinstance(x, (SStr, SBytes)):
-        return SBool(z3.Length(x.t) > 0)
+        return SBool(slen(x.t) > 0)
     if isinstance(x, SSeq):
         return SBool(z3.Length(x.t) > 0)
     if isinstance(x, SNoneT):
@@ -615,7 +615,9 @@ def lift(x):
 
 
 def len_(x):
-    if isinstance(x, (SStr, SBytes, SSeq)):
+    if isinstance(x, (SStr, SBytes)):
+        return SInt(slen(x.t))
+    if isinstance(x, SSeq):
         return SInt(z3.Length(x.t))
     if isinstance(x, (STuple, SList, SDict, SSet)):
         return len(x.items)
@@ -625,7 +627,7 @@ def len_(x):
 def seq_getitem(x, i):
     """Indexing/slicing of SStr/SBytes with Python semantics, *assuming* a plain index is in range
     (contract texts state that separately; the interpreter checks the range and raises IndexError)."""
-    n = z3.Length(x.t)
+    n = slen(x.t)
     if isinstance(i, slice):
         if i.step is not None:
             raise Unsupported("slice step")
@@ -637,8 +639,8 @@ def seq_getitem(x, i):
     elif not z3.is_int_value(its):
         it = z3.If(it < 0, n + it, it)
     if isinstance(x, SBytes):
-        return SInt(z3.StrToCode(z3.SubString(x.t, it, 1)))
-    return SStr(z3.SubString(x.t, it, 1))
+        return SInt(scode(x.t, simp(it)))
+    return SStr(sat(x.t, simp(it)))
 
 
 def norm_index(i, n, default):
@@ -655,17 +657,83 @@ def norm_index(i, n, default):
     return z3.If(it < 0, z3.If(n + it < 0, z3.IntVal(0), n + it), z3.If(it > n, n, it))
 
 
+# --- string-term normalisation (sound rewrites applied while building VCs; they keep nested slices and character
+#     accesses expressed over the *base* string with integer arithmetic, which is what the string solvers are good at)
+
+
+def _kind(t):
+    return t.decl().kind() if z3.is_app(t) else None
+
+
+def zmin(a, b):
+    return z3.If(a < b, a, b)
+
+
+def slen(t):
+    """Length of a string term as integer arithmetic over the lengths of its base strings."""
+    if z3.is_string_value(t):
+        return z3.IntVal(len(str_value_to_pystr(t)))
+    k = _kind(t)
+    if k == z3.Z3_OP_SEQ_EXTRACT:
+        base, a, n = t.children()
+        lb = slen(base)
+        return simp(z3.If(z3.Or(a < 0, n <= 0, a >= lb), z3.IntVal(0), zmin(n, lb - a)))
+    if k == z3.Z3_OP_SEQ_CONCAT:
+        r = z3.IntVal(0)
+        for c in t.children():
+            r = r + slen(c)
+        return simp(r)
+    if k == z3.Z3_OP_ITE:
+        c, x, y = t.children()
+        return z3.If(c, slen(x), slen(y))
+    return z3.Length(t)
+
+
+def ssub(t, a, n):
+    """substr(t, a, n) for a >= 0 (callers normalise), flattened through nested substr."""
+    if _kind(t) == z3.Z3_OP_SEQ_EXTRACT:
+        base, a0, n0 = t.children()
+        l1 = slen(t)
+        # valid for a >= 0: characters of t are characters of base shifted by a0 (t is empty when a0 < 0)
+        return ssub(base, simp(a0 + a), simp(zmin(n, l1 - a)))
+    return z3.SubString(t, a, n)
+
+
+def sat(t, i):
+    """1-character string at in-range index i >= 0 (i < slen(t)), expressed over the base string."""
+    k = _kind(t)
+    if k == z3.Z3_OP_SEQ_EXTRACT:
+        base, a0, n0 = t.children()
+        return sat(base, simp(a0 + i))
+    if k == z3.Z3_OP_SEQ_CONCAT:
+        cs = t.children()
+        head = cs[0]
+        rest = cs[1] if len(cs) == 2 else z3.Concat(*cs[1:])
+        lh = slen(head)
+        c = simp(i < lh)
+        if z3.is_true(c):
+            return sat(head, i)
+        if z3.is_false(c):
+            return sat(rest, simp(i - lh))
+        return z3.If(c, sat(head, i), sat(rest, simp(i - lh)))
+    return z3.SubString(t, i, 1)
+
+
+def scode(t, i):
+    return z3.StrToCode(sat(t, i))
+
+
 def slice_term(t, start, stop):
-    n = z3.Length(t)
+    n = slen(t)
     a = norm_index(start, n, z3.IntVal(0))
     b = norm_index(stop, n, n)
-    return z3.SubString(t, a, z3.If(b - a < 0, z3.IntVal(0), b - a))
+    return ssub(t, simp(a), simp(z3.If(b - a < 0, z3.IntVal(0), b - a)))
 
 
 def code_at(x, i):
     """Byte value of bytes-like x at non-negative in-range index i."""
     if is_sym(x) or is_sym(i):
-        return SInt(z3.StrToCode(z3.SubString(_z(x), _zi(i), 1)))
+        return SInt(scode(_z(x), simp(_zi(i))))
     return x[i]
 
 
